@@ -1163,6 +1163,10 @@ impl<'input> Stream<'input> {
     pub fn gen_text_pos_from(&self, pos: usize) -> TextPos {
         let mut s = self.clone();
         s.pos = core::cmp::min(pos, s.span.as_str().len());
+        // Move back to the start of the character `pos` points into.
+        while !s.span.as_str().is_char_boundary(s.pos) {
+            s.pos -= 1;
+        }
         s.gen_text_pos()
     }
 
